@@ -410,7 +410,11 @@ def main():
     X = numpy.array([1.0, 0.0, 0.0])
     Y = numpy.array([0.0, 1.0, 0.0])
 
-    def respond(energies, dipoles, widths, pols, det, coupling=None, t2=0.0):
+    def respond(energies, dipoles, widths, pols, det, coupling=None, t2=0.0,
+                reuse=None):
+        if reuse is not None and "calc" in reuse:
+            calc, agg, eUt = reuse["calc"], reuse["agg"], reuse["eUt"]
+            return measure(calc, agg, eUt, pols, det, t2)
         mols = []
         with qr.energy_units("1/cm"):
             for en, wd in zip(energies, widths):
@@ -442,6 +446,11 @@ def main():
         eUt.calculate()
         agg.build(mult=2)
         agg.diagonalize()
+        if reuse is not None:
+            reuse.update(calc=calc, agg=agg, eUt=eUt)
+        return measure(calc, agg, eUt, pols, det, t2)
+
+    def measure(calc, agg, eUt, pols, det, t2):
         lab = qr.LabSetup()
         lab.set_pulse_polarizations(pulse_polarizations=pols,
                                     detection_polarization=det)
@@ -574,6 +583,66 @@ def main():
                     if e > 1e-9:
                         ck.violation("additivity-uncoupled", "part:" + k,
                                      dict(rp, part=k, err=e), rp)
+
+    # one calculator, one aggregate and one evolution superoperator asked
+    # for a sequence of polarisation settings (as in an anisotropy scan):
+    # every answer is the one a fresh calculator gives, every pathway carries
+    # the exact average for ITS setting, and the isotropic identity
+    # S(XXXX) = S(XXYY) + S(XYXY) + S(XYYX) holds between the answers
+    Z = numpy.array([0.0, 0.0, 1.0])
+    scans = [(1, [((X, X, X), X), ((X, X, Y), Y), ((X, Y, X), Y),
+                  ((X, Y, Y), X)]),
+             (4, [((Z, Z, Z), Z), ((Z, Z, X), X), ((Z, X, Z), X),
+                  ((Z, X, X), Z)])]
+    if ck.thorough:
+        scans.append((8, [((Y, Y, Y), Y), ((Y, Y, Z), Z), ((Y, Z, Y), Z),
+                          ((Y, Z, Z), Y)]))
+    for ci, settings in scans:
+        ens, wds, cpl, t2, _p = cases[ci]
+        nm = len(ens)
+        dips = [rng.randn(3) for k in range(nm)]
+        rp = dict(kind="polarisation-scan", case=ci, energies=ens,
+                  widths=wds, coupling=str(cpl), t2=t2,
+                  dipoles=[d.tolist() for d in dips])
+        with ck.guarded("response", "scan%d" % ci, rp, rp):
+            shared = {}
+            got = []
+            for k, (pols, det) in enumerate(settings):
+                with contextlib.redirect_stdout(io.StringIO()):
+                    rs, pws, agg = respond(ens, dips, wds, pols, det, cpl, t2,
+                                           reuse=shared)
+                    rf, _, _ = respond(ens, dips, wds, pols, det, cpl, t2)
+                got.append(rs)
+                scale = max(numpy.abs(rf["reph"]).max(),
+                            numpy.abs(rf["nonr"]).max(), 1e-300)
+                e = max(float(numpy.abs(rs[q] - rf[q]).max())
+                        for q in rf) / scale
+                es = list(pols) + [det]
+                pmax = max(abs(pw.get_prefactor()) for pw in pws)
+                worst = 0.0
+                for pw in pws:
+                    ds = [pw.get_dmoment(q) for q in range(4)]
+                    n0 = pw.transitions[0, 1]
+                    want = (numpy.prod(pw.sides) * exact_avg(es, ds) *
+                            numpy.real(agg.rho0[n0, n0]) * pw.evolfac)
+                    worst = max(worst, abs(pw.get_prefactor() - want) / pmax)
+                ck.case("calculator-reused", (ci, k), sample=dict(
+                    case=ci, setting=k, err=e, prefactor_err=float(worst)))
+                if e > 1e-9:
+                    ck.violation("prefactor-is-exact-average",
+                                 "calculator-reused:spectrum",
+                                 dict(rp, setting=k, err=e), rp)
+                if worst > 1e-9:
+                    ck.violation("prefactor-is-exact-average",
+                                 "calculator-reused:pathways",
+                                 dict(rp, setting=k, err=float(worst)), rp)
+            scale = max(numpy.abs(got[0]["totl"]).max(), 1e-300)
+            e = float(numpy.abs(got[0]["totl"] - got[1]["totl"] -
+                                got[2]["totl"] - got[3]["totl"]).max()) / scale
+            ck.case("isotropic-identity", ci, sample=dict(case=ci, err=e))
+            if e > 1e-9:
+                ck.violation("prefactor-is-exact-average",
+                             "isotropic-identity", dict(rp, err=e), rp)
 
     pathway_sets(ck, qr, numpy, rng, MockTwoDResponseCalculator)
 
